@@ -817,6 +817,9 @@ class Interp:
     def cmp(self, op, a, b):
         if isinstance(a, Arr) or isinstance(b, Arr):
             return self.arr_map(lambda x, y: self.cmp(op, x, y), a, b)
+        if isinstance(a, MStr) and isinstance(b, str) and isinstance(op, (ast.In, ast.NotIn)):
+            r = z3.And(a.length == 1, z3.Or(*[a.char_at(a.start) == ord(ch) for ch in b])) if b else z3.BoolVal(False)
+            return r if isinstance(op, ast.In) else z3.Not(r)
         if isinstance(a, MStr) or isinstance(b, MStr):
             if isinstance(b, MStr):
                 a, b = b, a
